@@ -169,6 +169,36 @@ class Prog:
                 out.append('#addr ' + ren(it[1]))
         return out
 
+    def variant(self, style=None, rng=None, rename=None, order=None, blocks=1):
+        """one rendering of the program: (text for the implementation, structured line for ocaml/asm_driver given budget/indexed)"""
+        ren = (lambda x: x) if not rename else (lambda x: rename_text(x, rename))
+        isa_text = self.isa.text(order, blocks, rng)
+        lines, nodes = [], []
+        names = [ren(n) for n in self.names]
+        idx = {n: i for i, n in enumerate(self.names)}
+        for it in self.items:
+            k = it[0]
+            if k == 'label':
+                lines.append(ren(it[1]) + ':'); nodes.append('L:%d' % idx[it[1]])
+            elif k == 'const':
+                lines.append('%s = %s' % (ren(it[1]), ren(it[2]))); nodes.append('C:%d:%s' % (idx[it[1]], vlib.hx(ren(it[2]))))
+            elif k == 'instr':
+                src = self.render_instr((it[0], it[1], [ren(a) for a in it[2]]), style, rng)
+                lines.append(src)
+                # the parser hands the matcher the line without its trailing comment / line break
+                nodes.append('I:' + vlib.hx(strip_trailing_comment(src)))
+            elif k == 'data':
+                lines.append('#d%s %s' % ('' if it[1] is None else it[1], ', '.join(ren(e) for e in it[2])))
+                nodes.append('D:%s:%s' % ('-' if it[1] is None else it[1], ','.join(vlib.hx(ren(e)) for e in it[2])))
+            elif k in ('res', 'align', 'addr'):
+                lines.append('#%s %s' % (k, ren(it[1])))
+                nodes.append('%s:%s' % ({'res': 'S', 'align': 'A', 'addr': '@'}[k], vlib.hx(ren(it[1]))))
+        text = isa_text + '\n'.join(lines) + '\n'
+
+        def model_line(budget, indexed):
+            return '\t'.join([str(budget), '1' if indexed else '0', vlib.hx(isa_text), ' '.join(vlib.hx(n) for n in names), ';'.join(nodes)])
+        return text, model_line
+
     def text(self, style=None, rng=None, rename=None, order=None, blocks=1):
         return self.isa.text(order, blocks, rng) + '\n'.join(self.lines(style, rng, rename)) + '\n'
 
@@ -195,12 +225,31 @@ class Prog:
         return '\t'.join([str(budget), '1' if indexed else '0', vlib.hx(self.isa.text()), ' '.join(vlib.hx(n) for n in self.names), ';'.join(nodes)])
 
 
+def strip_trailing_comment(src):
+    """what AstInstruction.src holds for a rendered line: up to the line's last non-ignorable token"""
+    out, i, depth = [], 0, 0
+    keep = 0
+    while i < len(src):
+        if src.startswith(';*', i):
+            j = src.find('*;', i + 2)
+            j = len(src) if j < 0 else j + 2
+            out.append(src[i:j]); i = j
+            continue
+        if src[i] == ';':
+            break
+        out.append(src[i])
+        if src[i] not in ' \t':
+            keep = len(''.join(out))
+        i += 1
+    return ''.join(out)[:keep]
+
+
 def rename_text(s, mapping):
     import re
     return re.sub(r'[A-Za-z_][A-Za-z0-9_]*', lambda m: mapping.get(m.group(0), m.group(0)), s)
 
 
-def gen_prog(rng, size_static=True, collide=False, boundary=False):
+def gen_prog(rng, size_static=True, collide=False, boundary=False, tame=True):
     isa = gen_isa(rng, size_static, collide)
     p = Prog(isa)
     labels = ['l%d' % i for i in range(rng.range(1, 5))]
@@ -212,15 +261,15 @@ def gen_prog(rng, size_static=True, collide=False, boundary=False):
     def expr(d=0):
         k = rng.below(100)
         if k < 30:
-            return str(rng.below(300))
+            return str(rng.below(16 if tame and rng.chance(0.8) else 300))
         if k < 40:
-            return '0x%x' % rng.below(1 << rng.choice([4, 8, 12, 16]))
+            return '0x%x' % rng.below(1 << (4 if tame and rng.chance(0.7) else rng.choice([4, 8, 12, 16])))
         if k < 70:
             return rng.choice(allsyms)
         if k < 75:
             return '$'
         if k < 92 and d < 3:
-            return expr(d + 1) + rng.choice([' + ', ' - ', ' * ']) + expr(d + 1)
+            return expr(d + 1) + rng.choice([' + ', ' + ', ' - ', ' * '] if not tame else [' + ', ' + ', ' + ', ' * ']) + expr(d + 1)
         if d < 3:
             return '(' + expr(d + 1) + ')'
         return str(rng.below(10))
@@ -243,6 +292,9 @@ def gen_prog(rng, size_static=True, collide=False, boundary=False):
         typ = o[2]
         if typ and boundary and rng.chance(0.6):
             return typed_boundary(typ)
+        if typ and tame and rng.chance(0.7):
+            n = int(typ[1:])
+            return str(rng.below(2 ** (n - 1)))
         return expr()
 
     pend_l, pend_c = list(labels), list(consts)
@@ -258,7 +310,7 @@ def gen_prog(rng, size_static=True, collide=False, boundary=False):
             r = isa.rules[ri]
             p.items.append(('instr', ri, [arg_for(o) for o in r['ops'] if o[0] != 'reg']))
         elif k < 88:
-            w = rng.choice([8, 16, 4, 32, 1, 3, 24])
+            w = rng.choice([8, 16, 32, 24] if tame and rng.chance(0.8) else [8, 16, 4, 32, 1, 3, 24])
             p.items.append(('data', w, [expr() for _ in range(rng.range(1, 3))]))
         elif k < 90:
             p.items.append(('data', None, ['0x%02x @ (%s)`8' % (rng.below(256), expr())]))
